@@ -124,6 +124,7 @@ def run(rep, idx, tier):
                   f"reads self.{reads[0].attr if reads else ''} at line {reads[0].lineno if reads else ''}: the cursor is the end of the most "
                   "recently added item, and an item added at an explicit address before it lies above the cursor -- a look-up bounded by "
                   "the cursor does not see it, although the tables (and the hardware built from them) do", nontrivial=False)
+    per_parent_records(rep, idx)
     # the queries refuse nothing: "every other address decodes to nothing", an object never added is a KeyError and nothing else
     from .common import closed_refusals, check_refusal
     rep.require("C03.7", 2)
@@ -646,3 +647,46 @@ def authority(rep, idx):
             sites = [s for s in sites if s != q] + sorted(callers)
     rep.check(set(sites) <= want and ("MemoryMap._translate" in sites or not translate_owned(idx)) and len(set(sites)) >= 2, "C03.1", "memory.py", "ResourceInfo is built only by _translate and the two local-resource sites",
               f"construction sites: {sorted(set(sites))}")
+
+
+def per_parent_records(rep, idx):
+    """A frozen map may be a window of several parents (two decoders, a bridge and a decoder): where it sits in *this* map -- its
+    range, its name, its ratio -- is a fact about the pair and belongs to the parent's tables.  A method of MemoryMap that
+    stores a value computed from the parent's state on an object it was handed (``window._base = ...``) keeps one record for all
+    parents: the second add_window() overwrites the first parent's, and every look-up of the first parent that reads it translates
+    through the wrong base.  Values that depend on the child alone (freezing it, caching its own size) are not per-parent."""
+    cls = idx.find_class("MemoryMap")
+    n = 0
+    import builtins
+    for fs in cls.methods.values():
+        for f in fs:
+            a = f.node.args
+            params = [x.arg for x in a.posonlyargs + a.args + a.kwonlyargs][0 if "staticmethod" in f.decorators else 1:]
+            if not params:
+                continue
+            n += 1
+            hits = []
+            for st in ast.walk(f.node):
+                tgts, val = [], None
+                if isinstance(st, ast.Assign):
+                    tgts, val = st.targets, st.value
+                elif isinstance(st, (ast.AugAssign, ast.AnnAssign)) and st.value is not None:
+                    tgts, val = [st.target], st.value
+                elif isinstance(st, ast.Call) and isinstance(st.func, ast.Name) and st.func.id == "setattr" and len(st.args) == 3:
+                    tgts, val = [ast.Attribute(value=st.args[0], attr="?", ctx=ast.Store())], st.args[2]
+                for t in tgts:
+                    e = t
+                    while isinstance(e, ast.Subscript):
+                        e = e.value
+                    if isinstance(e, ast.Attribute) and isinstance(e.value, ast.Name) and e.value.id in params:
+                        own = e.value.id
+                        others = {x.id for x in ast.walk(val) if isinstance(x, ast.Name) and x.id != own and not hasattr(builtins, x.id)}
+                        if others:
+                            hits.append((st, own, e.attr, sorted(others)))
+            for st, own, attr, others in hits:
+                rep.bad("C03.9", f.site, f"{f.qual}() keeps what it knows about `{own}` in its own tables",
+                        f"`{ast.unparse(st)[:80]}` stores a value computed from {others} on the object handed in: a map may be a window of "
+                        "several parents, the record is shared by all of them and the last add overwrites it, so the look-ups of an earlier "
+                        "parent that read it translate through another parent's placement", line=st.lineno)
+    rep.ok("C03.9", "memory.py::MemoryMap", "no method of MemoryMap stores per-parent facts on an object it is handed",
+           f"{n} method(s) with parameters examined", nontrivial=False)
